@@ -4,6 +4,7 @@ from ..rm import q, r, R, h32, F1, F2, fmul, fpow, finv, frob, fadd, fsub, fneg
 
 ID = 'C17'
 EXES = ['release']
+NEEDS_HOOKS = True
 RULE = ('each event is one call of an internal tower / pairing-engine function, reached through the cfg(john_yu_sm9_core_verif) re-exports, '
         'on an arbitrary element built from a literal: Fq4 {mul, squared, inverse, mul_1 (sparse precondition), the eight Frobenius '
         'component maps, scale, scale_fq, mul_by_nonresidue, unitary_inverse, add, sub, neg}, Fq12 {mul, squared, inverse, mul_015 (sparse '
